@@ -993,7 +993,9 @@ func runCall(c *drv.Ctx, consumer runtime.Consumer, producer runtime.Producer, k
 	var after func()
 
 	if consumer != nil {
-		rc := streamkit.NewReadCloser(script(text, chunk))
+		sc := script(text, chunk)
+		sc.CloseErr = bad && (idx+chunk+len(text))%3 != 0 // malformed text from a source whose Close fails: the PARSER's error is the one reported (seed C16-21)
+		rc := streamkit.NewReadCloser(sc)
 		var dst any
 		bytesOut := func(get func() []byte) func() {
 			return func() { delivered, rp = reparse(get(), o) }
